@@ -5,7 +5,9 @@ import json, sys
 pid, wt = sys.argv[1][:3], sys.argv[2]
 round2 = len(sys.argv[1]) > 3
 extra = sys.argv[3] if len(sys.argv) > 3 else ""
-if sys.argv[1][3:] == "c":
+if sys.argv[1][3:] == "d":
+    extra += "\nThis is a FOURTH-ROUND request. Earlier rounds already tried: off-by-one errors in the main loops, wrong bounds of index nodes, early exits in the index search, stale buffers, skipped work for zero-length items, integer-width comparisons, wrong initial values of running minima / maxima, channel sizing, reopened file handles sharing a position, character-vs-byte counting, and options matched by position instead of by key. Choose something ELSE, preferably in code that ordinary command-line use rarely reaches: a public library function or option that the bundled tools do not use by default (e.g. reading through the generic open functions, zoom-interval reads, values() arrays, writer options such as max_zooms / initial_zoom_size / input sort type / channel size / in-memory mode), the handling of the last / first element of a sequence, the interaction between two chromosomes, or the end-of-file / end-of-chromosome bookkeeping.\n"
+elif sys.argv[1][3:] == "c":
     extra += "\nThis is a THIRD-ROUND request. Earlier rounds already tried: off-by-one errors in the main write/read loops, wrong bounds of R-tree index nodes, early-exit 'optimisations' of the index search, buffers reused without clearing, and skipping work for zero-length items. Choose a DIFFERENT kind of change in a DIFFERENT function: e.g. an error or end-of-input path, byte-order or integer-width handling, a header / offset / count field, interaction of two options, state carried between calls or between chromosomes, a concurrency hand-off, or a default value.\n"
 elif len(sys.argv[1]) > 3:
     extra += "\nThis is a SECOND-ROUND request: an obvious off-by-one in the main loop has already been tried. Prefer a change that is subtle: e.g. only wrong for a rare combination of options or data shape, an error path, a caching/state-carrying effect between calls, a concurrency window, an integer-width or boundary-value issue, or two edits in different functions that are each harmless alone.\n"
